@@ -13,38 +13,57 @@ CORE_CTX = ["top-def", "top-tail", "fn-def", "fn-tail", "fn-drop", "closure", "w
 
 
 class Family(object):
-    def __init__(self, name, rules=None, start="e", quick=3, thorough=4, exprs=None, ctx_quick=None,
+    """quick/thorough: size bounds of the grammar (thorough may continue to `extra` if time permits)"""
+
+    def __init__(self, name, rules=None, start="e", quick=3, thorough=4, extra=None, exprs=None, ctx_quick=None,
                  ctx_thorough=None, use_model=True, doc="", keep_far=None):
         self.keep_far = keep_far
         self.name = name
         self.rules = rules
         self.start = start
         self.q, self.t = quick, thorough
+        self.x = extra if extra is not None else thorough
         self._exprs = exprs
         self.ctx_q = ctx_quick or ALL_CTX
         self.ctx_t = ctx_thorough or ALL_CTX
         self.use_model = use_model
         self.doc = doc
-        self._g = None
-        self._cache = {}
+        self._g = gen.Grammar(rules) if rules else None
 
-    def bound(self, tier):
+    def levels(self, tier):
         if self._exprs is not None:
-            return "explicit product (%s)" % tier
-        return "size %d" % (self.q if tier == "quick" else self.t)
+            return ["product"]
+        return list(range(1, (self.q if tier == "quick" else self.x) + 1))
+
+    def rank(self, lv):
+        """<= 0: within the quick bound (always run); 1: within the thorough bound; 2: beyond"""
+        if self._exprs is not None:
+            return 0
+        if lv <= self.q:
+            return 0
+        return 1 if lv <= self.t else 2
+
+    def describe(self, lv):
+        if self._exprs is not None:
+            return "explicit product"
+        return "all trees of size <= %d" % lv
+
+    def count(self, tier, lv):
+        if self._exprs is not None:
+            return len(self._exprs(tier))
+        return self._g.count_exact(self.start, lv)
+
+    def level_exprs(self, tier, lv):
+        if self._exprs is not None:
+            return [gen.fresh(e) for e in self._exprs(tier)]
+        return [gen.fresh(e) for e in self._g.gen(self.start, lv)]
 
     def exprs(self, tier):
-        r = self._cache.get(tier)
-        if r is None:
-            if self._exprs is not None:
-                r = [gen.fresh(e) for e in self._exprs(tier)]
-            else:
-                if self._g is None:
-                    self._g = gen.Grammar(self.rules)
-                r = self._g.upto(self.start, self.q if tier == "quick" else self.t)
-            r = [gen.fresh(e) for e in r]
-            self._cache[tier] = r
-        return r
+        out = []
+        for lv in self.levels(tier):
+            if self.rank(lv) <= 1:
+                out.extend(self.level_exprs(tier, lv))
+        return out
 
     def contexts(self, tier):
         return self.ctx_q if tier == "quick" else self.ctx_t
@@ -78,7 +97,7 @@ fam(Family("arith", {
     "e": ["1", "a", "b", "x", "y",
           "(+ $e $e)", "(+ $e $e $e)", "(- $e $e $e)", "(* $e $e)", "(< $e $e)", "(< $e $e $e)",
           "(set x $e)", "(set y $e)", "(t $e)", "(do $e $e)", "(if $e $e $e)"],
-}, quick=4, thorough=5, ctx_thorough=ALL_CTX, doc="inlined variadic operators, set, do, if, tracer"))
+}, quick=4, thorough=5, extra=6, ctx_thorough=ALL_CTX, doc="inlined variadic operators, set, do, if, tracer"))
 
 
 # ---- setop: (set v (op l l [l [l]])) completely, the shape of the known defect D2
@@ -112,7 +131,7 @@ fam(Family("control", {
           "(when $e $e)", "(unless $e $e)", "(cond $e $e $e)", "(cond $e $e $e $e)",
           "(case $e 0 $e $e)", "(case $e nil $e :k $e)", "(not $e)", "(do $e $e)", "(if-not $e $e $e)",
           "(set x $e)", "(= nil $e)", "(not= nil $e)", "(if (= nil $e) $e $e)", "(if (not= $e nil) $e $e)"],
-}, quick=3, thorough=4, ctx_thorough=ALL_CTX))
+}, quick=3, thorough=4, extra=5, ctx_thorough=ALL_CTX))
 
 
 # ---- loops: while, break, nested loops, loops rewritten as functions, per-iteration capture
@@ -131,7 +150,7 @@ fam(Family("loops", {
     "w": ["(t v)", "(set acc (+ acc v))", "(break)", "(if (= v 5) (break))", "(array/push fs (fn [] v))", "(if $c $w)"],
     "c": ["(= i 1)", "(= i 2)", "(> i 1)", "true", "nil", "(t (< i 2))"],
     "d": ["(= j 1)", "(= i j)", "(> i 1)"],
-}, quick=4, thorough=5, ctx_quick=CORE_CTX, ctx_thorough=ALL_CTX))
+}, quick=4, thorough=5, extra=6, ctx_quick=CORE_CTX, ctx_thorough=ALL_CTX))
 
 
 # ---- closures: capture of mutable variables, sharing, capture after/before mutation, nesting
@@ -152,7 +171,7 @@ def _clos_rules():
     return r
 
 
-fam(Family("closures", _clos_rules(), quick=4, thorough=5, ctx_quick=CORE_CTX, ctx_thorough=ALL_CTX))
+fam(Family("closures", _clos_rules(), quick=4, thorough=5, extra=6, ctx_quick=CORE_CTX, ctx_thorough=ALL_CTX))
 
 
 # ---- params: parameter lists x argument lists x call styles
@@ -226,7 +245,7 @@ fam(Family("quasi", {
     "n": ["1", "sym", "(unquote $q)", "($n $n)", "(unquote (unquote a))", "[$n]"],
     "z": ["a", "nil", "(quasiquote $q)"],
     "d": ["1", "sym", "(a b)", "[a (t 1)]", "@[x]", "{:k v}", "()", "(quote a)", "(unquote a)", "(splice x)", "($d $d)", "[$d]"],
-}, quick=4, thorough=5, ctx_quick=CORE_CTX, ctx_thorough=ALL_CTX))
+}, quick=4, thorough=5, extra=6, ctx_quick=CORE_CTX, ctx_thorough=ALL_CTX))
 
 
 # ---- macros: the core control macros
@@ -257,7 +276,7 @@ def _macro_rules():
     return r
 
 
-fam(Family("macros", _macro_rules(), quick=3, thorough=4, ctx_quick=CORE_CTX, ctx_thorough=ALL_CTX))
+fam(Family("macros", _macro_rules(), quick=3, thorough=4, extra=4, ctx_quick=CORE_CTX, ctx_thorough=ALL_CTX))
 
 
 # ---- tailcalls: recursion, tail calls through every tail position, frame reuse
@@ -320,7 +339,7 @@ fam(Family("errors", {
           "(set x $e)", "(with [w 1 (fn [z] (t z))] $e)", "(edefer (t :ed) $e)", "(protect $e)", "[$e $e]",
           "(do (var i 0) (while (< i 2) (++ i) $e) i)", "(each p [1 2] $e)", "(and $e $e)", "(< $e $e)", "(- $e)",
           "((fn [p q] p) $e)", "(do (def [p q] $e) (tuple p q))", "(in $e 0)", "(length $e)", "(++ y)", "(set y :k)"],
-}, quick=3, thorough=4, ctx_thorough=ALL_CTX))
+}, quick=3, thorough=4, extra=4, ctx_thorough=ALL_CTX))
 
 
 # ---- scopes: shadowing, upscope, redefinition, closures over shadowed names
@@ -333,7 +352,7 @@ fam(Family("scopes", {
           "(do (var x 1) (def f (fn [] (set x (+ x 1)))) (f) x)", "(tuple x (do (var x 5) (set x (+ x 1))) x)",
           "(do (def a 3) (def a (+ a 1)) a)", "(if (def p $e) p :no)", "(do (if true (def a 9)) a)",
           "(upscope (def b $e) b)", "(while (def p (< x 103)) (set x (+ x 1)))"],
-}, quick=3, thorough=4, ctx_thorough=ALL_CTX))
+}, quick=3, thorough=4, extra=5, ctx_thorough=ALL_CTX))
 
 
 # ---- data: constructors, splice, indexed access, put / set of a field, keywords and structures as functions
@@ -344,7 +363,7 @@ fam(Family("data", {
     "l": ["[1 2]", "@[a x]", "[$e $e]", "(tuple $e)", "[]"],
     "d": ["{:k 1}", "@{:k a}", "{:j 2}", "nil", "{:k $e}"],
     "m": ["@{}", "@{:k 0}", "@[1 2]"],
-}, quick=3, thorough=4, ctx_quick=CORE_CTX, ctx_thorough=ALL_CTX))
+}, quick=3, thorough=4, extra=5, ctx_quick=CORE_CTX, ctx_thorough=ALL_CTX))
 
 
 # ---- mixed: the most important productions of every family together
@@ -353,7 +372,7 @@ fam(Family("mixed", {
           "(let [p $e] (tuple p $e))", "(try $e ([err] err))", "(error $e)", "[$e ;[$e]]", "(and $e $e)",
           "(do (var i 0) (while (< i 2) (++ i) $e) i)", "(do (def f (fn [p] $e)) (f $e))", "(quasiquote (a (unquote $e)))",
           "(seq [i :range [0 2]] $e)", "(def [p q] [$e $e])", "(< $e $e $e)"],
-}, quick=3, thorough=4, ctx_thorough=ALL_CTX))
+}, quick=3, thorough=4, extra=5, ctx_thorough=ALL_CTX))
 
 
 # ---- sweep: the number of live locals crosses the near/far register boundary (240 and 256) one by one
@@ -383,8 +402,7 @@ _TEMPLATES = [
     "(do (def co (coro (yield a) (set x (+ x 1)) (yield x) :done)) (tuple (resume co) (resume co) (resume co) (fiber/status co) x))",
     "(do (def f (fiber/new (fn [] (yield 1) (error :boom)) :ye)) (tuple (resume f) (resume f) (fiber/status f)))",
     "(prompt :p (+ 1 (return :p x)))", "(label lb (each i [1 2 3] (if (= i 2) (return lb (+ i a)))))",
-    "(do (varfn vf [p] (+ p 1)) (def old vf) (varfn vf [p] (+ p 2)) (tuple (vf a) (old a)))",
-    "(map |(+ $ a) [1 2 3])", "(map (fn [p q] (+ p q x)) [1 2] [10 20])", "(filter |(> $ a) [0 1 2 3])", "(reduce + x [a b])",
+        "(map |(+ $ a) [1 2 3])", "(map (fn [p q] (+ p q x)) [1 2] [10 20])", "(filter |(> $ a) [0 1 2 3])", "(reduce + x [a b])",
     "(reduce (fn [acc el] (set y (+ y el)) (+ acc el)) 0 [1 2 3])", "(-> x (+ a) (* 2))", "(->> [1 2 3] (map |(* $ b)) (filter odd?))",
     "(as-> a z (+ z 1) (* z z))", "(sort @[3 a 2] >)", "(sort-by |(- $) @[3 a 2])", "(string/join (map string [a b x]) \"-\")",
     "(do (def tb @{}) (put-in tb [:p :q] x) (get-in tb [:p :q]))", "(update @{:k a} :k inc)", "((comp inc inc) a)", "((partial + a b) x)",
